@@ -3,9 +3,9 @@ CONSTANTS
   NConn = 1
   MaxIn = 2
   MaxSteps = 5
-  Classes = {"GoodKA", "GoodClose", "BadLine", "BadHeader", "BadCL", "BadChunk", "BadEscape", "Nul", "TlsHello", "TlsCut", "Truncate", "Rest"}
+  Classes = {"GoodKA", "GoodClose", "GoodHead", "BadLine", "BadHeader", "BadCL", "BadChunk", "BadEscape", "Nul", "TlsHello", "TlsCut", "Truncate", "Rest"}
   Racing = TRUE
   Linger = TRUE
-  DefectSets = {{}, {"stalebuf"}}
+  DefectSets = {{}}
 INVARIANT TypeOK
 CHECK_DEADLOCK FALSE
